@@ -34,6 +34,8 @@ class AckFun:
                 return pr
         idx = len(self.apps)
         res = [Sym(z3.Real(f"{self.name}!{idx}!{j}")) for j in range(self.nout)]
+        for j, r_ in enumerate(res):
+            ctx.inputs[f"{self.name}!{idx}!{j}"] = r_.t  # visible in counterexamples: replays can script the function
         for (pa, pr) in self.apps:
             if len(pa) == len(terms):
                 same = z3.And(*[a == b for a, b in zip(pa, terms)]) if terms else z3.BoolVal(True)
@@ -87,11 +89,27 @@ class SymC:
     def __abs__(self):
         s = self.re * self.re + self.im * self.im
         if is_sym(s):
-            return s.sqrt()
+            return _Modulus(s)
         return abs(complex(self.re, self.im))
 
     def __repr__(self):
         return f"SymC({self.re},{self.im})"
+
+
+class _Modulus(Sym):
+    """|z| = sqrt(re^2+im^2) that remembers its square: |z|**2 is re^2+im^2 itself (valid: the radicand is a sum of squares)."""
+
+    __slots__ = ("sq",)
+
+    def __init__(self, s):
+        r = s.sqrt()
+        Sym.__init__(self, r.t)
+        self.sq = s
+
+    def __pow__(self, e):
+        if e == 2:
+            return self.sq
+        return Sym.__pow__(self, e)
 
 
 class FFTStub:
